@@ -139,6 +139,27 @@ def proof_stage(prop, extra_files=()):
                 if a not in res['axioms']:
                     res['axioms'].append(a)
         res['files'].append({'file': rel, 'theorems': len(names), 'coqc_s': round(time.time() - t0, 1)})
+    if os.environ.get('VERIF_TIER') == 'thorough' and not extra_files:
+        # independent re-check of the compiled property file and everything it depends on
+        t0 = time.time()
+        rc, out, err = sh(['coqchk', '-silent', '-o', '-Q', 'theories', 'PGV', 'PGV.Props.' + prop], 2400, cwd=COQ)
+        if rc != 0:
+            raise BrokenCheck('coqchk PGV.Props.%s failed (rc=%d): %s' % (prop, rc, (out + err)[-1500:]))
+        ax = []
+        sect = None
+        for line in out.splitlines():
+            if line.startswith('* '):
+                sect = line
+            elif sect and sect.startswith('* Axioms') and line.strip() and line.strip() != '<none>':
+                ax.append(line.strip())
+            elif sect and not sect.startswith('* Axioms') and line.strip() and line.strip() != '<none>' and not line.startswith('CONTEXT'):
+                raise BrokenCheck('coqchk reports %s %s' % (sect, line.strip()))
+        own = [a for a in ax if not a.startswith('Coq.')]
+        if own:
+            raise BrokenCheck('coqchk: axioms outside the standard library: %r' % own)
+        res['coqchk'] = {'ok': True, 'seconds': round(time.time() - t0, 1), 'stdlib_axioms_in_closure': len(ax),
+                         'non_primitive': [a for a in ax if 'PrimInt63' not in a and 'PrimFloat' not in a and 'Uint63' not in a
+                                           and 'Floats' not in a and 'Sint63' not in a][:40]}
     return res
 
 
@@ -284,6 +305,10 @@ class Check:
                 tb.append('axioms reported by Print Assumptions: none (closed under the global context)')
             cov['trusted_base'] = tb
             cov['proof_files'] = proof['files']
+            if 'coqchk' in proof:
+                cov['coqchk'] = proof['coqchk']
+                tb.append('coqchk -o re-checked PGV.Props.%s and its dependencies (%d standard-library axioms/primitives in the loaded closure)'
+                          % (self.prop, proof['coqchk']['stdlib_axioms_in_closure']))
         if uncovered:
             cov['uncovered_clauses'] = uncovered
         if extra:
